@@ -37,7 +37,7 @@ nop
 rts
 """.replace("it''s", "its ; ok"),
     """*=0x01fff0
-value:=0x1c
+value := 0x1c
 .macro store(a,b){
 lda.w #a<<1
 sta.w b
@@ -58,7 +58,7 @@ local:
 }else{
 .db 0xb2
 }
-.for i:=0,3{
+.for i := 0,3{
 .db i*2
 }
 @=0x7e2000
@@ -126,7 +126,7 @@ def run(ctx) -> None:
             files = dict(b["files"])
             if v["inc"]:
                 files["moved.s"] = {"text": "\n".join(v["inc"]) + "\n"}
-            tasks.append({"src": "\n".join(v["main"]) + "\n", "files": files, "rom": b["rom"]})
+            tasks.append({"src": "\n".join(v["main"]) + ("\n" if v.get("final_newline", True) else ""), "files": files, "rom": b["rom"]})
             meta.append((b, v["acts"]))
     res = Pool().map("assemble", tasks, timeout=30)
     base_obs = {}
